@@ -200,6 +200,8 @@ def std_model(m, path, args, t):
             return int(bool(a0[1]) and a0[1][-1] == pat)
     if re.search(r'str::<impl str>::chars$', path) and is_str(a0):
         return ('it', list(a0[1]), 'chars')
+    if re.search(r'str::(iter::)?Chars::<.*>::as_str$|str::(iter::)?Chars<.*>::as_str$', path) and is_it(a0) and a0[2] == 'chars':
+        return ('str', list(a0[1]))                     # what the iterator has not handed out yet
     if re.search(r'str::<impl str>::char_indices$', path) and is_str(a0):
         return ('it', [('tuple', [i, c]) for i, c in enumerate(a0[1])], 'char_indices')
     if re.search(r'str::<impl str>::trim(_end|_start)?$|String::as_str$|Deref>::deref$', path) and is_str(a0) and not re.search(r'trim', path):
